@@ -210,6 +210,25 @@ def call(I, name, args, e):
         return IterV(SeqV('&str', [('sym', ('a', nm))], name=nm), False, kind='split')
 
     # ---------------- small std helpers that refactors like to use
+    if n.endswith('as core::iter::Iterator>::map') or n == 'core::iter::Iterator::map':
+        if isinstance(a0, IterV): return IterV(a0.seq, a0.by_ref, a0.kind, a0.maps + [args[1]], a0.enum)
+        return I.top('map over %r' % (a0,), e)
+    if n.endswith('as core::iter::Iterator>::copied') or n.endswith('as core::iter::Iterator>::cloned') or n in ('core::iter::Iterator::copied', 'core::iter::Iterator::cloned'):
+        if isinstance(a0, IterV): return IterV(a0.seq, False, a0.kind, a0.maps, a0.enum)
+    if n.endswith('as core::iter::Iterator>::sum') or n == 'core::iter::Iterator::sum':
+        acc = Cell(ZERO)
+        I.frame().vars['$sum%d' % id(acc)] = acc
+        def step(el):
+            v = deref(el)
+            acc.v = add(acc.v, v) if is_term(v) and is_term(acc.v) else I.top('sum of non-scalars', e)
+        I.iterate(args[0], step, e)
+        del I.frame().vars['$sum%d' % id(acc)]
+        return acc.v
+    if re.match(r'^core::num::<impl (u8|u16|u32|u64|usize)>::(leading_zeros|ilog2)$', n):
+        # bit length of the operand: leading_zeros(x) = BITS - bitlen(x);  ilog2(x) = bitlen(x) - 1
+        bl = ('call', 'bitlen', a0); sym.CALL_RANGE[bl] = (0, 64)
+        bits = int_bits(re.match(r'^core::num::<impl (\w+)>', n).group(1))
+        return sub(C(bits), bl) if n.endswith('leading_zeros') else sub(bl, ONE)
     if n in ('core::cmp::Ord::max', 'core::cmp::Ord::min', 'core::cmp::max', 'core::cmp::min') or re.match(r'^core::cmp::impls::<impl core::cmp::Ord for \w+>::(max|min)$', n):
         a, b = a0, deref(args[1])
         if is_term(a) and is_term(b):
